@@ -247,6 +247,9 @@ impl World {
             OutMode::Both | OutMode::LinkBoth => Err(EvalErr::Fail(207)),
             OutMode::Link => Ok(Built::Bytes(symlink_bytes(&link_dest(&cand.arg1)))),
             OutMode::LinkDir(d) => Ok(Built::Bytes(symlink_bytes(&d))),
+            // (the evaluator does not interpret generated rules; the family that
+            // uses them is judged by trace invariants only)
+            OutMode::RuleText(_) => Ok(Built::Bytes(b"@generated-rule\n".to_vec())),
             OutMode::Direct => Err(EvalErr::Fail(206)),
         }
     }
